@@ -39,6 +39,11 @@ func emitHandlers(c *Ctx) (string, error) {
 	}
 	var facts []handlerFact
 	var bodies [][2]string
+	type guardCall struct {
+		name  string
+		calls []string
+	}
+	var gcalls []guardCall
 	for _, m := range mods {
 		if !m.IsDir() {
 			continue
@@ -64,6 +69,13 @@ func emitHandlers(c *Ctx) (string, error) {
 				if fd.Name.Name == "ValidateAuthority" || fd.Name.Name == "IsAuthority" || fd.Name.Name == "HasPermission" ||
 					(isCanFn(fd.Name.Name) && fd.Recv != nil) {
 					bodies = append(bodies, [2]string{m.Name() + "." + recvTypeName(fd) + "." + fd.Name.Name, c.src(fd.Body)})
+					// the set of functions the helper calls: robust against re-arrangements of the body
+					// (early return vs `err == nil && …`), sensitive to a new dependency such as a bypass
+					set := map[string]bool{}
+					for _, cn := range callsIn(c, fd.Body) {
+						set[cn] = true
+					}
+					gcalls = append(gcalls, guardCall{m.Name() + "." + recvTypeName(fd) + "." + fd.Name.Name, sortedKeys(set)})
 				}
 				if !strings.HasSuffix(fname, "msg_server.go") || fd.Recv == nil {
 					continue
@@ -119,6 +131,15 @@ func emitHandlers(c *Ctx) (string, error) {
 			sep = ""
 		}
 		fmt.Fprintf(&sb, "  (%s, %s)%s\n", leanStr(b[0]), leanStr(b[1]), sep)
+	}
+	sb.WriteString("]\n\n/-- the functions each guard helper calls (sorted, unique) -/\ndef guardCalls : List (String × List String) := [\n")
+	sort.Slice(gcalls, func(i, j int) bool { return gcalls[i].name < gcalls[j].name })
+	for i, g := range gcalls {
+		sep := ","
+		if i == len(gcalls)-1 {
+			sep = ""
+		}
+		fmt.Fprintf(&sb, "  (%s, %s)%s\n", leanStr(g.name), leanStrList(g.calls), sep)
 	}
 	sb.WriteString("]\n\nend Generated\n")
 	return sb.String(), nil
